@@ -321,3 +321,148 @@ def rand_whole(rng, pad=False):
         hist.append({"raw": raw, "row": row})
     sc["hist"] = hist
     return sc
+
+
+# ------------------------------------------------------------------------------------------------ two symbols, one wallet
+SYM2 = ['BTC-USDT', 'ETH-USDT']
+
+
+def run_whole2(item):
+    """two-symbol scenario: hist entries {rawA, rawB, rowA, rowB}; routes [A, B] with the same scripted strategy class"""
+    from jesse.models import Order
+    from jesse.modes import backtest_mode as bm
+    from jesse.store import store
+    sc = item
+    hist, tf = sc['hist'], sc['tf']
+    rows = {SYM2[0]: [], SYM2[1]: []}
+    mm = 0
+    for e in hist:
+        mm += len(e['rawA'])
+        if mm % tf == 0:
+            rows[SYM2[0]].append(e['rowA'])
+            rows[SYM2[1]].append(e['rowB'])
+    mk = lambda key: np.array([[S.T0 + i * S.MIN, P(c['o']), P(c['c']), P(c['h']), P(c['l']), 1.0]
+                               for i, c in enumerate([c for e in hist for c in e[key]])])
+    cand = {SYM2[0]: mk('rawA'), SYM2[1]: mk('rawB')}
+    hooks = {SYM2[0]: [], SYM2[1]: []}
+    proj, fills = [], {SYM2[0]: [], SYM2[1]: []}
+    ex = S.FUT
+    base = {}
+
+    def cls_for():
+        from jesse.strategies import Strategy
+        A = whole_strategy(rows[SYM2[0]], hooks[SYM2[0]])
+
+        class Two(A):
+            """one class for both routes: rows and hook list are looked up by the route's symbol"""
+            def _row(self):
+                r = rows[self.symbol]
+                return r[self.index] if self.index < len(r) else IDLE
+
+            def on_open_position(self, order):
+                A.on_open_position(self, order)
+                self._mv('open')
+
+            def on_increased_position(self, order):
+                A.on_increased_position(self, order)
+                self._mv('inc')
+
+            def on_reduced_position(self, order):
+                A.on_reduced_position(self, order)
+                self._mv('red')
+
+            def on_close_position(self, order):
+                A.on_close_position(self, order)
+                self._mv('close')
+
+            def _mv(self, w):
+                # the base class logged into A's list: move the word to the list of this route's symbol
+                hooks[SYM2[0]].pop()
+                hooks[self.symbol].append(w)
+        return Two
+
+    rec = S.Recorder()
+    row4 = lambda c: [lat(c[1]), lat(c[2]), lat(c[3]), lat(c[4])]
+
+    def post_flush(tok, r, e, *a, **k):
+        if e is not None:
+            return
+        exch = store.exchanges.storage[ex]
+        p = {"t": int((store.app.time - S.T0) // S.MIN), "wal": rat(exch.assets['USDT']), "mar": rat(exch.available_margin)}
+        for sym, sfx in zip(SYM2, "ab"):
+            pos = store.positions.storage['%s-%s' % (ex, sym)]
+            c1 = store.candles.get_candles(ex, sym, '1m')[-1]
+            ct = store.candles.get_candles(ex, sym, TFNAME[tf])[-1] if tf != 1 else c1
+            p["q" + sfx] = int(pos.qty)
+            p["en" + sfx] = lat_rat(pos.entry_price) if pos.qty != 0 else [0, 1]
+            p["o" + sfx] = [[o.side, o.type, int(abs(o.qty)), lat(o.price), 1 if o.reduce_only else 0]
+                            for o in store.orders.get_orders(ex, sym) if o.is_active]
+            p["h" + sfx] = list(hooks[sym])
+            p["c1" + sfx] = row4(c1)
+            p["ctf" + sfx] = row4(ct)
+            p["n" + sfx] = sum(1 for t in store.completed_trades.trades if t.symbol == sym)
+            del hooks[sym][:]
+        proj.append(p)
+    rec._wrap(bm, '_execute_market_orders', post=post_flush)
+
+    def pre_exec(self_, *a, **k):
+        return self_.status
+
+    def post_exec(tok, r, e, self_, *a, **k):
+        if tok == 'ACTIVE' and self_.status != tok:
+            fills[self_.symbol].append([self_.side, self_.type, int(abs(self_.qty)), lat(self_.price),
+                                        int((self_.executed_at - S.T0) // S.MIN)])
+    rec._wrap(Order, 'execute', pre=pre_exec, post=post_exec)
+    old = signal.signal(signal.SIGALRM, R._on_alarm)
+    signal.alarm(R.RUN_TIMEOUT)
+    try:
+        routes = [{'symbol': s, 'timeframe': TFNAME[tf]} for s in SYM2]
+        data = [{'symbol': s, 'timeframe': TFNAME[sc['chunk']]} for s in SYM2] if sc['chunk'] != tf else []
+        out = S.run_backtest(None, S.futures_config(balance=float(sc['start']), fee=sc['fee'][0] / sc['fee'][1], lev=sc['lev'], mode='cross'),
+                             cand, routes=routes, data_routes=data, fast=(item['mode'] == 'fast'), strategy_cls=cls_for())
+    except R.HarnessTimeout:
+        out = {'exc': 'HarnessTimeout: the backtest did not finish', 'final': None, 'result': None}
+    finally:
+        signal.alarm(0)
+        signal.signal(signal.SIGALRM, old)
+        rec.uninstall()
+    exc = out['exc'].split(':')[0] if out['exc'] else 'run'
+    res = {"proj": proj, "fillsA": fills[SYM2[0]], "fillsB": fills[SYM2[1]], "exc": exc, "exc_text": (out['exc'] or '')[:200],
+           "tradesA": [], "tradesB": [], "daily": [], "wal": [0, 1]}
+    fin = out.get('final') or {}
+    if exc == 'run':
+        n = sum(len(e['rawA']) for e in hist) if item['mode'] != 'fast' else len(hist)
+        res["proj"] = proj[:n]
+        for t in fin['trades']:
+            rowt = {"type": t['type'], "qty": int(t['qty']), "entry": rat(t['entry']), "exit": rat(t['exit']), "pnl": rat(t['pnl']),
+                    "fee": rat(t['fee']), "opened": int((t['opened_at'] - S.T0) // S.MIN), "closed": int((t['closed_at'] - S.T0) // S.MIN)}
+            res["tradesA" if t['sym'] == SYM2[0] else "tradesB"].append(rowt)
+        res["daily"] = [rat(x) for x in fin['daily']]
+        res["wal"] = rat(list(fin['accts'].values())[0]['wallet'])
+    return res
+
+
+def run_wholes2(scens, chunk=20):
+    jobs = []
+    for sc in scens:
+        jobs.append(dict(sc, mode='step'))
+        jobs.append(dict(sc, mode='fast'))
+    res = S.run_isolated(run_whole2, jobs, procs=16, chunk=chunk)
+    for x in res:
+        if isinstance(x, tuple) and x and x[0] == 'EXC':
+            raise Machinery("two-symbol whole-run driver failed: %s" % x[1])
+    return [(res[2 * j], res[2 * j + 1]) for j in range(len(scens))]
+
+
+def whole_trace2(tid, sc, rn, rf):
+    keep = ("proj", "fillsA", "fillsB", "exc", "tradesA", "tradesB", "daily", "wal")
+    return {"id": tid, "hdr": {"tf": sc["tf"], "chunk": sc["chunk"]}, "hist": sc["hist"],
+            "norm": {k: rn[k] for k in keep}, "fast": {k: rf[k] for k in keep}}
+
+
+def pair_scenarios(a, b):
+    """two single-symbol scenarios with the same shape -> one two-symbol scenario (A's script on BTC, B's on ETH)"""
+    if len(a['hist']) != len(b['hist']) or any(len(x['raw']) != len(y['raw']) for x, y in zip(a['hist'], b['hist'])):
+        return None
+    return {"tf": a["tf"], "chunk": a["chunk"], "K": max(a["K"], b["K"]), "start": a["start"], "lev": a["lev"], "fee": a["fee"],
+            "hist": [{"rawA": x["raw"], "rawB": y["raw"], "rowA": x["row"], "rowB": y["row"]} for x, y in zip(a['hist'], b['hist'])]}
